@@ -364,6 +364,49 @@ def theory_parameters(ctx):
             ctx.violation("C11:theory-parameters-raises:%s" % type(ex).__name__, "model over %s raised %r" % (info["theory"], ex), info)
 
 
+def shared_across_sections(ctx):
+    """ONE prior object used in the theory AND in the optics or the scaling (a medium index that also sets the lens angle, an
+    aberration tied to the scaling): one parameter, and its value reaches every place"""
+    from holopy.scattering.theory import AberratedMieLens
+    NA = 1.2
+    cases = []
+    nmed = Uniform(1.3, 1.4, guess=1.33, name="n_medium")
+    cases.append(("medium index and lens angle", dict(medium_index=nmed, illum_wavelen=0.66, illum_polarization=(1, 0)), 0.8,
+                  MieLens(lens_angle=TransformedPrior(lambda n_: np.arcsin(NA / n_), [nmed])), lambda v: ("lens_angle", math.asin(NA / v), "medium_index", v)))
+    pa = Uniform(0.5, 1.0, guess=0.8)
+    cases.append(("scaling and lens angle", dict(medium_index=1.33, illum_wavelen=0.66, illum_polarization=(1, 0)), pa, MieLens(lens_angle=pa), lambda v: ("lens_angle", v, "alpha", v)))
+    pb = Uniform(0.2, 0.45, guess=0.3)
+    cases.append(("scaling tied to an aberration coefficient", dict(medium_index=1.33, illum_wavelen=0.66, illum_polarization=(1, 0)), pb * 2,
+                  AberratedMieLens(spherical_aberration=[pb, 0.1], lens_angle=0.8), lambda v: ("spherical_aberration", [v, 0.1], "alpha", 2 * v)))
+    for what, optics, alpha, theory, expect in cases:
+        ctx.tried("shared-across-sections", (what,))
+        info = dict(kind="shared-across-sections", case=what)
+        try:
+            sc = Sphere(n=1.59, r=Uniform(0.3, 0.7, guess=0.5), center=[0.5, 0.5, Uniform(3, 9, guess=5.0)])
+            model = AlphaModel(sc, alpha=alpha, noise_sd=0.1, theory=theory, **optics)
+            names = model._parameter_names
+            if len(names) != 3 or len(set(names)) != 3:
+                ctx.violation("C11:shared-across-sections:count", "%s shared by one prior object: the model exposes %d parameters %r for 3 distinct priors" % (what, len(names), list(names)), dict(info, names=list(names)))
+                continue
+            shared_name = [nm for nm in names if nm not in ("r", "center.2")][0]
+            v = {"medium index and lens angle": 1.36, "scaling and lens angle": 0.9, "scaling tied to an aberration coefficient": 0.4}[what]
+            vals = {"r": 0.52, "center.2": 5.5, shared_name: v}
+            opt_t, want_t, opt_o, want_o = expect(v)
+            th = model.theory_from_parameters(vals)
+            got_t = getattr(th, opt_t)
+            parlist = [vals[nm] for nm in names]
+            if opt_o == "alpha":
+                from holopy.core.mapping import read_map as _rm
+                got_o = _rm(model._maps["model"], parlist)["alpha"]
+            else:
+                got_o = model._find_optics(parlist, None)[opt_o]
+            if not np.allclose(np.asarray(got_t, dtype=float), np.asarray(want_t, dtype=float), rtol=0, atol=1e-12) or not np.allclose(float(got_o), float(want_o), rtol=0, atol=1e-12):
+                ctx.violation("C11:shared-across-sections:value", "%s: value %r gives %s = %r (expected %r) and %s = %r (expected %r)" % (what, v, opt_t, got_t, want_t, opt_o, got_o, want_o), dict(info, names=list(names)))
+        except Exception as ex:
+            import traceback
+            ctx.violation("C11:shared-across-sections-raises:%s" % type(ex).__name__, "%s raised %r" % (what, ex), dict(info, tb=traceback.format_exc()[-600:]))
+
+
 def tie_edge_cases(ctx):
     """ties written the way a script may write them: a name listed twice, a new name that is already in use -- the model still
     exposes uniquely named parameters, one per distinct prior, and exactly the duplicates are removed"""
@@ -436,6 +479,7 @@ def model_class_histories(ctx):
 
 def search(ctx):
     theory_parameters(ctx)
+    shared_across_sections(ctx)
     tie_edge_cases(ctx)
     model_class_histories(ctx)
     rng = ctx.rng
